@@ -410,7 +410,7 @@ class MapEmit(C.Emit):
                     raise Unsupported("mask argument")
                 return f"({C.lname(name)} {a})", "Bool"
             if name == "__none_optelem":
-                return "none", ("opt", "Elem")
+                return "(none : Option (Option Rat))", ("opt", "Elem")
             if name == "Ok" and len(args) == 1:
                 a, ta = self.ex0(args[0], env, expect[1] if isinstance(expect, tuple) and expect[0] == "opt" else None)
                 return f"(some {a})", ("opt", ta)
@@ -606,6 +606,114 @@ class MapEmit(C.Emit):
         return super().ex0(e, env, expect)
 
 
+INF = "∞"
+
+
+class LenEmit(MapEmit):
+    """the same walk, with every iterator-valued expression replaced by the length its `size_hint` /
+    `TrustedLen` contract announces: `self` / `titer()` -> xs.length, repeat_n(v, k) -> k, chain -> +,
+    take(k) -> min, skip(k) -> -, zip -> min, map / rev / enumerate / Box::new -> unchanged,
+    `to_trust(n)` / `TrustIter::new(_, n)` -> n (the claim), `repeat(v)` -> infinite (only under take)"""
+
+    def ex0(self, e, env, expect=None):
+        k = e[0]
+        if getattr(self, "value_mode", False):
+            return MapEmit.ex0(self, e, env, expect)
+        if k == "mcall" and e[2] in ("collect", "collect_trusted_vec1", "collect_trusted_to_vec"):
+            # a collected `Vec` is a value (its items matter later), not a returned iterator
+            self.value_mode = True
+            try:
+                r, tr = MapEmit.ex0(self, e, env, expect)
+            finally:
+                self.value_mode = False
+            return r, (("vec", tr[1]) if is_list(tr) else tr)
+        if k == "path" and isinstance(env.get(e[1]), tuple) and env[e[1]][0] == "vec":
+            return C.lname(e[1]), env[e[1]]
+        if k == "mcall" and e[2] in ("len", "titer", "into_iter") and not e[3]:
+            try:
+                r, tr = self.ex0(e[1], env)
+            except Unsupported:
+                r, tr = None, None
+            if isinstance(tr, tuple) and tr[0] == "vec":
+                return (f"{r}.length", "Nat") if e[2] == "len" else (f"{r}.length", ("list", tr[1]))
+        if k == "path" and e[1] == "self":
+            return "xs.length", ("list", "Elem")
+        if k == "call":
+            name, args = e[1], e[2]
+            if name in ("Box::new",) and len(args) == 1:
+                return self.ex0(args[0], env, expect)
+            if name == "TrustIter::new" and len(args) == 2:
+                n, tn = MapEmit.ex0(self, args[1], env)
+                if tn != "Nat":
+                    raise Unsupported("announced length")
+                return n, ("list", "Elem")
+            if name in ("std::iter::repeat_n", "repeat_n") and len(args) == 2:
+                n, tn = MapEmit.ex0(self, args[1], env)
+                if tn != "Nat":
+                    raise Unsupported("repeat_n count")
+                return n, ("list", "Elem")
+            if name in ("std::iter::repeat", "repeat", "std::iter::repeat_with", "repeat_with") and len(args) == 1:
+                return INF, ("list", "Elem")
+            if name in ("std::iter::once", "once") and len(args) == 1:
+                return "1", ("list", "Elem")
+            if name == "Ok" and len(args) == 1:
+                a, ta = self.ex0(args[0], env)
+                if is_list(ta):
+                    return f"(some {a})", ("opt", ta)
+        if k == "mcall":
+            name, args = e[2], e[3]
+            if e[1] == ("path", "self") and name in ("titer", "into_iter") and not args:
+                return "xs.length", ("list", "Elem")
+            if e[1] == ("path", "self") and name in getattr(self, "len_siblings", {}):
+                lean_name, ptys = self.len_siblings[name]
+                ats = []
+                for a, pt in zip(args, ptys):
+                    at, aty = MapEmit.ex0(self, a, env)
+                    ats.append(at)
+                return f"({lean_name} xs" + "".join(" " + a for a in ats) + ")", ("list", "Elem")
+            if name == "to_trust" and len(args) == 1:
+                n, tn = MapEmit.ex0(self, args[0], env)
+                if tn != "Nat":
+                    raise Unsupported("announced length")
+                return n, ("list", "Elem")
+            if name in ("map", "rev", "enumerate", "into_iter", "clone", "collect", "collect_trusted_vec1",
+                        "collect_trusted_to_vec", "titer") and (e[1] == ("path", "self") or e[1][0] in ("mcall", "call", "path")):
+                try:
+                    r, tr = self.ex0(e[1], env)
+                except Unsupported:
+                    r, tr = None, None
+                if r is not None and is_list(tr):
+                    if name == "map" and len(args) == 1 and args[0][0] == "path" and isinstance(env.get(args[0][1]), tuple):
+                        return r, tr
+                    if name in ("map",) and len(args) != 1:
+                        raise Unsupported("map arity")
+                    return r, tr
+            if name in ("chain", "zip", "take", "skip"):
+                r, tr = self.ex0(e[1], env)
+                if not is_list(tr) or len(args) != 1:
+                    raise Unsupported(f"{name} receiver")
+                if name in ("chain", "zip"):
+                    a, ta = self.ex0(args[0], env)
+                    if not is_list(ta):
+                        raise Unsupported(f"{name} argument")
+                    if name == "chain":
+                        return (INF if INF in (r, a) else f"({r} + {a})"), tr
+                    if r == INF:
+                        return a, tr
+                    if a == INF:
+                        return r, tr
+                    return f"(min {r} {a})", tr
+                a, ta = MapEmit.ex0(self, args[0], env)
+                if ta != "Nat":
+                    raise Unsupported(f"{name} argument")
+                if name == "take":
+                    return (a if r == INF else f"(min {r} {a})"), tr
+                return (INF if r == INF else f"({r} - {a})"), tr
+            if name in ("filter", "filter_map"):
+                raise Unsupported(f"{name}: not an exact-length iterator")
+        return super().ex0(e, env, expect)
+
+
 def fn_src(src, trait, name):
     m = re.search(r"pub trait " + trait + r"\b", src)
     if not m:
@@ -645,6 +753,10 @@ def fn_src(src, trait, name):
 
 
 SIBLINGS = {}
+LEN_SIBLINGS = {}
+# functions that return `impl TrustedLen` / `Box<dyn TrustedLen>`: their announced length is generated too
+TRUSTED = ["shift", "vclip", "fill_mask", "fill", "ffill_mask", "ffill", "bfill_mask", "bfill", "vshift", "vdiff",
+           "vpct_change", "abs", "vabs", "vcut"]
 
 
 def translate(name, rel, trait, params):
@@ -685,6 +797,31 @@ def translate(name, rel, trait, params):
     L.append(f"def run (xs : List (Option Rat)){ps} : {ty_lean(ty)} :=")
     L.append(C.indent(txt, 2))
     L.append("def parsed : Bool := true")
+    if name in TRUSTED:
+        try:
+            lem = LenEmit()
+            lem.siblings = dict(SIBLINGS)
+            lem.len_siblings = dict(LEN_SIBLINGS)
+            lem.allow_len = False
+            lem.none_types = LET_TYPES.get(name, {})
+            lem.map_item = em.map_item
+            lenv = dict(params)
+            if name == "vcut":
+                lenv["MIN"] = "Rat"
+                lenv["MAX"] = "Rat"
+            ltxt, lty = lem.stmts(blk[1], blk[2], lenv, [], None)
+            if INF in ltxt:
+                raise Unsupported("an infinite iterator is returned")
+            fall = isinstance(lty, tuple) and lty[0] == "opt"
+            L.append("/-- the length the returned `TrustedLen` iterator announces (`to_trust(n)` claims `n`) -/")
+            L.append(f"def announced (xs : List (Option Rat)){ps} : {'Option Nat' if fall else 'Nat'} :=")
+            L.append(C.indent(ltxt, 2))
+            L.append("def announcedParsed : Bool := true")
+            LEN_SIBLINGS[name] = (f"{name}.announced", list(params.values()))
+        except Unsupported as ex:
+            reason = str(ex).replace('"', "'")
+            L.append(f"/- announced length UNPARSED: {reason} -/")
+            L.append("def announcedParsed : Bool := false")
     L.append(f"end {name}")
     SIBLINGS[name] = (f"{name}.run", list(params.values()))
     return "\n".join(L)
